@@ -757,6 +757,16 @@ func c16Tasks(tier string) []mc.Task {
 		cs := c16Case{Kind: "sched", Seqs: []string{"C" + sref + "G", c16NoSim, sref + "GTT"}, Translate: true, Cpus: cpus, Bound: eb}
 		ts = append(ts, mc.Task{Name: fmt.Sprintf("sched#noref-nosim/cpus%d", cpus), Run: func(c *mc.Ctx) { c16Sched(c, cs, false) }})
 	}
+	// more workers than sequences (1 sequence / 2, 3 workers; 2 sequences / 3 workers; no sequence at all is
+	// refused before any worker starts): every result arrives and the stream is closed
+	for _, in := range [][]string{{"C" + sref + "G"}, {"C" + sref + "G", sref + "GTT"}} {
+		for cpus := len(in) + 1; cpus <= 3; cpus++ {
+			for _, tr := range []bool{true, false} {
+				cs := c16Case{Kind: "sched", Seqs: in, Orf: sref, Translate: tr, Cpus: cpus, Bound: 3 - cpus}
+				ts = append(ts, mc.Task{Name: fmt.Sprintf("sched#more-workers-than-sequences/n%d/cpus%d/tr%v", len(in), cpus, tr), Run: func(c *mc.Ctx) { c16Sched(c, cs, false) }})
+			}
+		}
+	}
 	// interleavings inside the workers: every function entry (>= 4 statements) of goalign is a scheduling
 	// point as well, one preemption, two workers: state shared through the heap (a reference sequence
 	// edited in place by the aligner, a buffer kept in the phaser) shows by its effect on the results
